@@ -3,8 +3,8 @@
     Definitions only (extracted and run against the real application). *)
 From Coq Require Import Strings.String Strings.Byte.
 From Coq Require Import List Arith NArith ZArith Bool.
-From PV Require Import Base.Bytes Base.Outcome Base.KV Compkey.Model Aol.Model Valid.Aol Bank.Model Did.Model.
-From PV Require Generated.GenConst.
+From PV Require Import Base.Bytes Base.Outcome Base.KV Compkey.Model Aol.Model Valid.Aol Bank.Model Did.Model Pnft.Model.
+From PV Require Generated.GenConst Generated.GenNft.
 Import ListNotations.
 
 (** ** messages *)
@@ -19,9 +19,19 @@ Inductive did_msg :=
 | DUpdate (did : bytes) (doc : option did_doc) (vmid sig from : bytes)
 | DDeactivate (did vmid sig from : bytes).
 
+Inductive pnft_msg :=
+| PCreateDenom (id name symbol description uri uri_hash creator data : bytes)
+| PUpdateDenom (id name symbol description uri uri_hash updater data : bytes)
+| PDeleteDenom (id remover : bytes)
+| PTransferDenom (id sender receiver : bytes)
+| PMint (denom_id id name description uri uri_hash data creator : bytes)
+| PTransfer (denom_id id sender receiver : bytes)
+| PBurn (denom_id id burner : bytes).
+
 Inductive base_msg :=
 | BAol (m : aol_msg)
 | BDid (m : did_msg)
+| BPnft (m : pnft_msg)
 | BSend (from to : bytes) (amt : coins)
 | BGrant (granter grantee type_url : bytes) (expiration : option Z)
 | BRevoke (granter grantee type_url : bytes).
@@ -37,19 +47,21 @@ Record tx := {
 
 Record grant := { gr_granter : bytes; gr_grantee : bytes; gr_url : bytes; gr_exp : option Z }.
 
-Record chain := { c_aol : aol_state; c_did : did_state; c_bank : bank; c_grants : list grant }.
+Record chain := { c_aol : aol_state; c_did : did_state; c_pnft : pnft_state; c_bank : bank; c_grants : list grant }.
 
 Definition with_aol (c : chain) (a : aol_state) : chain :=
-  {| c_aol := a; c_did := c_did c; c_bank := c_bank c; c_grants := c_grants c |}.
+  {| c_aol := a; c_did := c_did c; c_pnft := c_pnft c; c_bank := c_bank c; c_grants := c_grants c |}.
 Definition with_did (c : chain) (d : did_state) : chain :=
-  {| c_aol := c_aol c; c_did := d; c_bank := c_bank c; c_grants := c_grants c |}.
+  {| c_aol := c_aol c; c_did := d; c_pnft := c_pnft c; c_bank := c_bank c; c_grants := c_grants c |}.
+Definition with_pnft (c : chain) (p : pnft_state) : chain :=
+  {| c_aol := c_aol c; c_did := c_did c; c_pnft := p; c_bank := c_bank c; c_grants := c_grants c |}.
 Definition with_bank (c : chain) (bk : bank) : chain :=
-  {| c_aol := c_aol c; c_did := c_did c; c_bank := bk; c_grants := c_grants c |}.
+  {| c_aol := c_aol c; c_did := c_did c; c_pnft := c_pnft c; c_bank := bk; c_grants := c_grants c |}.
 Definition with_grants (c : chain) (g : list grant) : chain :=
-  {| c_aol := c_aol c; c_did := c_did c; c_bank := c_bank c; c_grants := g |}.
+  {| c_aol := c_aol c; c_did := c_did c; c_pnft := c_pnft c; c_bank := c_bank c; c_grants := g |}.
 
 Definition empty_chain : chain :=
-  {| c_aol := []; c_did := []; c_bank := {| balances := []; supply := [] |}; c_grants := [] |}.
+  {| c_aol := []; c_did := []; c_pnft := []; c_bank := {| balances := []; supply := [] |}; c_grants := [] |}.
 
 (** what the environment supplies to a block: bech32 decoding, block time, module addresses *)
 Record env := {
@@ -58,6 +70,7 @@ Record env := {
   e_fee_collector : bytes;
   e_blocked : list bytes;
   (* cryptography / serialisation oracles of x/did (see Did/Model.v, Section Crypto) *)
+  e_bech : bytes -> bytes;                  (* AccAddress.String() *)
   e_b58key : bytes -> option bytes;
   e_verify : bytes -> bytes -> bytes -> bool }.
 
@@ -72,6 +85,13 @@ Definition type_url (m : base_msg) : bytes :=
   | BDid (DCreate _ _ _ _ _) => GenConst.url_did_create
   | BDid (DUpdate _ _ _ _ _) => GenConst.url_did_update
   | BDid (DDeactivate _ _ _ _) => GenConst.url_did_deactivate
+  | BPnft (PCreateDenom _ _ _ _ _ _ _ _) => GenNft.url_pnft_create_denom
+  | BPnft (PUpdateDenom _ _ _ _ _ _ _ _) => GenNft.url_pnft_update_denom
+  | BPnft (PDeleteDenom _ _) => GenNft.url_pnft_delete_denom
+  | BPnft (PTransferDenom _ _ _) => GenNft.url_pnft_transfer_denom
+  | BPnft (PMint _ _ _ _ _ _ _ _) => GenNft.url_pnft_mint
+  | BPnft (PTransfer _ _ _ _) => GenNft.url_pnft_transfer
+  | BPnft (PBurn _ _ _) => GenNft.url_pnft_burn
   | BSend _ _ _ => GenConst.url_bank_send
   | BGrant _ _ _ _ => GenConst.url_authz_grant
   | BRevoke _ _ _ => GenConst.url_authz_revoke
@@ -99,10 +119,22 @@ Section WithEnv.
     | DDeactivate did _ sig from => vb_deactivate unbech did sig from
     end.
 
+  Definition vb_pnft (m : pnft_msg) : outcome unit :=
+    match m with
+    | PCreateDenom id name symbol _ _ _ creator _ => vb_create_denom unbech true id name symbol creator
+    | PUpdateDenom id _ _ _ _ _ updater _ => vb_update_denom unbech id updater
+    | PDeleteDenom id remover => vb_delete_denom unbech id remover
+    | PTransferDenom id sender receiver => vb_transfer_denom unbech id sender receiver
+    | PMint denom_id id name _ _ _ _ creator => vb_mint_pnft unbech true denom_id id name creator
+    | PTransfer denom_id id sender receiver => vb_transfer_pnft unbech denom_id id sender receiver
+    | PBurn denom_id id burner => vb_burn_pnft unbech denom_id id burner
+    end.
+
   Definition vb_base (m : base_msg) : outcome unit :=
     match m with
     | BAol a => vb_aol a
     | BDid d => vb_did d
+    | BPnft p => vb_pnft p
     | BSend f t amt =>
         do _ <- validate_addr unbech f;
         do _ <- validate_addr unbech t;
@@ -150,6 +182,9 @@ Section WithEnv.
         | _ => do fa <- addr_or_panic f; Ok [fa; wa]
         end
     | BDid (DCreate _ _ _ _ f) | BDid (DUpdate _ _ _ _ f) | BDid (DDeactivate _ _ _ f) => do a <- addr_or_panic f; Ok [a]
+    | BPnft (PCreateDenom _ _ _ _ _ _ s _) | BPnft (PUpdateDenom _ _ _ _ _ _ s _) | BPnft (PDeleteDenom _ s)
+    | BPnft (PTransferDenom _ s _) | BPnft (PMint _ _ _ _ _ _ _ s) | BPnft (PTransfer _ _ s _) | BPnft (PBurn _ _ s) =>
+        do a <- addr_or_panic s; Ok [a]
     | BSend f _ _ => do a <- addr_or_panic f; Ok [a]
     | BGrant g _ _ _ | BRevoke g _ _ => do a <- addr_or_panic g; Ok [a]
     end.
@@ -203,6 +238,25 @@ Section WithEnv.
         do d <- deactivate_did (e_b58key e) (e_verify e) marshal_doc (c_did c) did vmid sig; Ok (with_did c d, [])
     end.
 
+  (** msgServer of x/pnft; the handler-level ValidateBasic repeats the stateless check *)
+  Definition exec_pnft (c : chain) (m : pnft_msg) : outcome (chain * list N) :=
+    let st := c_pnft c in
+    let r :=
+      match m with
+      | PCreateDenom id name symbol description uri uri_hash creator data =>
+          create_denom st {| dn_id := id; dn_name := name; dn_symbol := symbol; dn_description := description;
+                             dn_uri := uri; dn_uri_hash := uri_hash; dn_owner := creator; dn_data := data |}
+      | PUpdateDenom id name symbol description uri uri_hash updater data =>
+          update_denom st id name symbol description uri uri_hash updater data
+      | PDeleteDenom id remover => delete_denom true st id remover
+      | PTransferDenom id sender receiver => transfer_denom st id sender receiver
+      | PMint denom_id id name description uri uri_hash data creator =>
+          mint_pnft unbech st (e_now e) denom_id id name description uri uri_hash data creator
+      | PTransfer denom_id id sender receiver => transfer_pnft unbech (e_bech e) st denom_id id sender receiver
+      | PBurn denom_id id burner => burn_pnft (e_bech e) st denom_id id burner
+      end in
+    do st' <- r; Ok (with_pnft c st', []).
+
   Definition grant_matches (g r u : bytes) (x : grant) : bool :=
     bytes_eqb (gr_granter x) g && bytes_eqb (gr_grantee x) r && bytes_eqb (gr_url x) u.
 
@@ -214,6 +268,7 @@ Section WithEnv.
     match m with
     | BAol a => exec_aol c a
     | BDid d => exec_did c d
+    | BPnft p => exec_pnft c p
     | BSend f t amt =>
         match unbech f, unbech t with
         | Some fa, Some ta =>
@@ -352,7 +407,11 @@ Section ExportImport.
     do g <- export_genesis bech (c_aol c);
     do a <- init_genesis unbech g;
     let d := init_did (export_did (c_did c)) [] in
-    Ok (with_did (with_aol c a) d).
+    let pg := export_pnft bech (c_pnft c) in
+    if negb (validate_pnft_genesis pg) then Err (b "pnft") 0
+    else
+      do p <- init_pnft_genesis unbech false pg;
+      Ok (with_pnft (with_did (with_aol c a) d) p).
 End ExportImport.
 
 (** ** blocks and histories *)
